@@ -307,20 +307,23 @@ func (s *netSim) corruptWire(raw []byte, kind string) []byte {
 	if len(c) < 4 {
 		return c
 	}
+	// positions are drawn independently of the message length: large messages are LZ4-compressed and the
+	// compressed length is not guaranteed to be the same in every process
+	pos := func(n int) int { return t.Choose(1<<20) % n }
 	k := t.Choose(5)
 	switch k {
 	case 0:
-		c[t.Choose(len(c))] ^= byte(1 << uint(t.Choose(8)))
+		c[pos(len(c))] ^= byte(1 << uint(t.Choose(8)))
 		s.r.out.Faults["wire_bitflip"]++
 	case 1:
-		c = c[:len(c)-1-t.Choose(min(len(c)-1, 40))]
+		c = c[:len(c)-1-pos(min(len(c)-1, 40))]
 		s.r.out.Faults["wire_truncated"]++
 	case 2:
 		c = append(c, byte(t.Choose(256)), 0)
 		s.r.out.Faults["wire_trailing"]++
 	case 3:
-		i := t.Choose(len(c))
-		j := i + 1 + t.Choose(min(len(c)-i, 16))
+		i := pos(len(c))
+		j := i + 1 + pos(min(len(c)-i, 16))
 		c = append(c[:j:j], append(append([]byte{}, c[i:j]...), c[j:]...)...)
 		s.r.out.Faults["wire_duplicated_segment"]++
 	case 4:
@@ -328,7 +331,7 @@ func (s *netSim) corruptWire(raw []byte, kind string) []byte {
 			s.r.out.Faults["wire_nonminimal_varint"]++
 			return nm
 		}
-		c[t.Choose(len(c))] ^= 0x80
+		c[pos(len(c))] ^= 0x80
 		s.r.out.Faults["wire_bitflip"]++
 	}
 	return c
@@ -373,9 +376,14 @@ func (s *netSim) checkReencode(msg *network.Message, raw []byte) {
 			viol = sim.Violatef("c17-reencode", "c17-reencode/decode-fails", "the re-encoding of a decoded %s payload does not decode: %v", msg.Command, err)
 			return
 		}
-		b3, err := network.NewMessage(m2.Command, m2.Payload).Bytes()
-		if err != nil || !bytes.Equal(b2, b3) {
-			viol = sim.Violatef("c17-reencode", "c17-reencode/unstable", "re-encoding a decoded %s payload is not a fixed point (%d vs %d bytes, err=%v)", msg.Command, len(b2), len(b3), err)
+		// equality is judged on the payload encodings: the wire bytes of large messages are LZ4-compressed and the
+		// compressor's output for equal input is not unique (first seen as a false alarm of this oracle)
+		w1 := nio.NewBufBinWriter()
+		msg.Payload.EncodeBinary(w1.BinWriter)
+		w2 := nio.NewBufBinWriter()
+		m2.Payload.EncodeBinary(w2.BinWriter)
+		if w1.Err != nil || w2.Err != nil || !bytes.Equal(w1.Bytes(), w2.Bytes()) {
+			viol = sim.Violatef("c17-reencode", "c17-reencode/unstable", "a decoded %s payload re-encodes to %d bytes, and what that decodes to re-encodes to %d different bytes (%v %v)", msg.Command, len(w1.Bytes()), len(w2.Bytes()), w1.Err, w2.Err)
 			return
 		}
 		type hashable interface{ Hash() util.Uint256 }
